@@ -139,7 +139,7 @@ class Stats:
         self.examples: list = []
 
 
-ALL_PARENTS = 14
+ALL_PARENTS = 15
 
 
 def replay_cases(run: Run, st, griffe, parents: Parents, cases: list, rnd: random.Random, stats: Stats, origin: str, max_parents: int = ALL_PARENTS):
@@ -225,7 +225,7 @@ def _long_one(run: Run, style: str, st, griffe, parents: Parents, n_examples: in
         @settings(max_examples=n_examples, database=None, deadline=None, derandomize=False, phases=[Phase.generate],
                   suppress_health_check=list(HealthCheck))
         @given(hs.sampled_from(first), hs.lists(hs.sampled_from(alphabet), min_size=5, max_size=max_len), hs.sampled_from(last),
-               hs.sampled_from(sorted(["none", "module", "class", "function", "init", "property", "tuplefn", "genfn", "aliasmod", "tupleprop", "tuple0fn", "gen1fn", "gen2fn", "iterfn"])),
+               hs.sampled_from(sorted(["none", "module", "class", "function", "init", "property", "tuplefn", "genfn", "aliasmod", "tupleprop", "tuple0fn", "gen1fn", "gen2fn", "iterfn", "detachedinit"])),
                hs.lists(hs.booleans(), min_size=len(opt_names), max_size=len(opt_names)), hs.integers(0, 11))
         def prop(a, mid, z, parent, optvals, v):
             lines = st.make_fixed_point([a, *mid, z])
@@ -279,11 +279,11 @@ SMALL_DOMAINS = {
 TLC_JOBS = {
     # style -> tier -> list of (cfg constants, workers, replay cap or None).  TLC checks every state of the bounded space; EMITMOD > 1 makes it
     # hand only the final states whose checksum is 0 mod EMITMOD to the replay (deterministic sample), the cap bounds the replay further.
-    "google": {"quick": [({"LEN": 3, "ALPHA": "mid", "EMITMOD": 3}, 3, 4000), ({"LEN": 4, "ALPHA": "core", "EMITMOD": 8}, 5, 5000)],
+    "google": {"quick": [({"LEN": 3, "ALPHA": "mid", "EMITMOD": 4}, 3, 3500), ({"LEN": 4, "ALPHA": "core", "EMITMOD": 12}, 6, 4500)],
                "thorough": [({"LEN": 3, "ALPHA": "rich", "EMITMOD": 2}, 4, None), ({"LEN": 5, "ALPHA": "core", "EMITMOD": 24}, 8, 70000)]},
-    "numpy": {"quick": [({"LEN": 3, "ALPHA": "mid", "EMITMOD": 3}, 3, 4000), ({"LEN": 4, "ALPHA": "core", "EMITMOD": 5}, 4, 5000)],
+    "numpy": {"quick": [({"LEN": 3, "ALPHA": "mid", "EMITMOD": 4}, 3, 3500), ({"LEN": 4, "ALPHA": "core", "EMITMOD": 8}, 4, 4500)],
               "thorough": [({"LEN": 3, "ALPHA": "mid", "EMITMOD": 1}, 4, None), ({"LEN": 5, "ALPHA": "core", "EMITMOD": 24}, 8, 70000)]},
-    "sphinx": {"quick": [({"LEN": 3, "ALPHA": "core", "EMITMOD": 1}, 2, 4000), ({"LEN": 4, "ALPHA": "mini", "EMITMOD": 2}, 2, 4000)],
+    "sphinx": {"quick": [({"LEN": 3, "ALPHA": "core", "EMITMOD": 2}, 2, 3500), ({"LEN": 4, "ALPHA": "mini", "EMITMOD": 3}, 2, 3500)],
                "thorough": [({"LEN": 3, "ALPHA": "rich", "EMITMOD": 1}, 4, None), ({"LEN": 4, "ALPHA": "core", "EMITMOD": 6}, 6, None), ({"LEN": 5, "ALPHA": "mini", "EMITMOD": 4}, 6, None)]},
 }
 
